@@ -134,16 +134,17 @@ by new; model bytes = real bytes (`save_incr`), model load = real load. Non-triv
         let id1 = base.add_object(Object::Dictionary({ let mut d = Dictionary::new(); d.set("Type", Object::Name(b"Catalog".to_vec())); d }));
         base.trailer.set("Root", Object::Reference(id1));
         let mut reproduced = false; let mut what = String::new();
-        for stream in [false, true] {
+        // any number of bytes: a few, and around / beyond the first KiB
+        for (stream, junk_len) in [false, true].into_iter().flat_map(|s| [11usize, 1019, 1020, 1024, 1025, 4096].into_iter().map(move |n| (s, n))) {
             base.reference_table.cross_reference_type = if stream { XrefType::CrossReferenceStream } else { XrefType::CrossReferenceTable };
             let mut saved = Vec::new(); let mut b2 = base.clone();
             if b2.save_to(&mut saved).is_err() { continue; }
-            let mut f = b"%!PS-Adobe\n".to_vec(); f.extend_from_slice(&saved);
+            let mut f = if junk_len == 11 { b"%!PS-Adobe\n".to_vec() } else { let mut j = vec![b'#'; junk_len - 1]; j.push(b'\n'); j }; f.extend_from_slice(&saved);
             let Ok(mut inc) = IncrementalDocument::load_from(&f[..]) else { reproduced = true; what = "base with bytes before the header does not load".into(); continue };
             let nid = inc.new_document.add_object(Object::Integer(42));
             let mut out = Vec::new();
             if inc.save_to(&mut out).is_err() { continue; }
-            match Document::load_mem(&out) { Ok(d) if d.objects.get(&nid) == Some(&Object::Integer(42)) && d.objects.contains_key(&id1) => {}, Ok(_) => { reproduced = true; what = "objects missing after the update".into(); } Err(e) => { reproduced = true; what = format!("{:?}", e); } }
+            match Document::load_mem(&out) { Ok(d) if d.objects.get(&nid) == Some(&Object::Integer(42)) && d.objects.contains_key(&id1) => {}, Ok(_) => { reproduced = true; what = format!("{} bytes before the header: objects missing after the update", junk_len); } Err(e) => { reproduced = true; what = format!("{} bytes before the header: {:?}", junk_len, e); } }
         }
         c.witness("F-C07-b", reproduced, &format!("incremental update of a file with bytes before %PDF-: {}", if reproduced { what } else { "loads".into() }));
     }
